@@ -82,14 +82,79 @@ PROPS = {
         assumptions=["a batch handed to Write is a concatenation of newline-terminated lines without interior newlines",
                      "'sending never blocks forever' is checked by the correspondence run only"],
     ),
+    "C06": dict(
+        modules=["HT.Props.C06"],
+        streams=["c06bus"],
+        rule="filter wiring: every single filter over 6 channel lists x 10 category lists x 10 service lists, "
+             "structured two-filter configurations (unrestricted after restricted and vice versa, shared channels), "
+             "seeded configurations of 0..4 filters over <= 3 channels, each with a stream of events whose "
+             "category/service are matching, non-matching, missing and non-string; through the real Run() wiring "
+             "(verif constructor, capture channels registered through pushers.Register), bus Send; oracle = Go regexp "
+             "reference per channel + token check; non-trivial = a channel received some but not all possible "
+             "deliveries; distinct = distinct case line",
+        trusted=COMMON_TB + ["verif hook server/verif_hooks.go", "Go regexp (matching is a parameter of the theorems)",
+                             "BurntSushi/toml decoding of the configuration"],
+        assumptions=["the model's matcher covers alternatives of optionally anchored literals (the harness alphabet)"],
+    ),
+    "C08": dict(
+        modules=["HT.Props.C08"],
+        streams=["c08route", "c08sock"],
+        rule="dispatch: 13 service lists (0..4 services mixing detector-less and prefix-detector stubs) x 8 first "
+             "payloads (satisfying none/one/several detectors, empty, 3000 bytes) x segmentations (whole, cuts at "
+             "1..5/middle/last/1024/1025, byte-wise), address matching cases (wildcard/specific/udp/unmatched), seeded "
+             "random lists and segmentations, tcp over net.Pipe and udp datagram connections, through the real "
+             "handle()/findService and both connection wrappers; stub services record what they read; non-trivial = "
+             "several candidates; distinct = distinct case line",
+        trusted=COMMON_TB + ["verif hook server/verif_hooks.go", "net.Pipe as the connection (real sockets in the thorough tier)"],
+        assumptions=["'the first bytes the client sent' = the bytes of the first read (<= 1024), which is what detectors are shown"],
+    ),
+    "C19": dict(
+        modules=["HT.Props.C19"],
+        streams=["c19ports"],
+        rule="port configuration: tcp/<n> for every n in 0..65537 (thorough) or every 97th plus both ends (quick), a "
+             "28-string malformed/well-formed set singly and in all ordered pairs (first wins), service lists with "
+             "defined/undefined/duplicate/empty names, port+ports, seeded configurations of 1..4 entries each followed by "
+             "a connection to a listened address; through the real Run() with a recording listener; oracle = independent "
+             "reference parser/deduplicator; non-trivial = at least one address listened on; distinct = distinct case line",
+        trusted=COMMON_TB + ["verif hook server/verif_hooks.go", "net.ResolveTCPAddr/UDPAddr for IP literals",
+                             "BurntSushi/toml decoding"],
+        assumptions=["host parts are IP literals or empty (host names need the resolver and are outside the model)"],
+    ),
 }
 
-HOOK_COMMITS = ["0596fc6", "c47bf54"]
+HOOK_COMMITS = ["0596fc6", "c47bf54", "a8020ca"]
 
 NOT_BUILT = "check not built yet in this round (design in DESIGN.md section 7); not claimed until its theorems and correspondence stream exist"
 NOT_APPLICABLE = {("C%02d" % i): NOT_BUILT for i in range(1, 21)}
 
 MANIFEST_TEXT = {
+    "C06": dict(
+        text="Lean theorem: for every configuration and event stream, what a configured channel receives is exactly, and in "
+             "exactly this order, one copy per event per filter occurrence naming it that admits the event (regex matching a "
+             "parameter); unconfigured channels receive nothing; absent lists admit everything; filters not naming a channel "
+             "do not influence it. Tied to the real Run() wiring by a differential run with a Go-regexp reference oracle.",
+        design_ref="DESIGN.md section 7, C06",
+        note="Trusted: Lean kernel; model HT.Srv (wire/send); Go regexp; toml decoding; harness.",
+        technique="Lean 4 proof (list algebra over flatMap/filter) + differential correspondence through Run()",
+    ),
+    "C08": dict(
+        text="Lean theorems: single service shortcut; with several services the chosen one is the first without detector or "
+             "whose detector accepts the peeked bytes; it is one of the port's services; the byte stream the chosen service "
+             "reads equals the client's stream for every segmentation (peek buffer first, then the rest); pairwise-incomparable "
+             "port keys give at most one match for a concrete local address. Tied to the real handle()/findService.",
+        design_ref="DESIGN.md section 7, C08",
+        note="Trusted: Lean kernel; model HT.Srv (findService, peek view); harness stub services; net.Pipe semantics.",
+        technique="Lean 4 proof + differential correspondence through handle()",
+    ),
+    "C19": dict(
+        text="Lean theorems: the port parser accepts exactly decimal numerals <= 65535; each port string adds at most one row "
+             "and only if it parses, names a defined service and no earlier row is compatible; later entries only append "
+             "(first wins); table keys are pairwise incompatible; rows name only defined services; findService reaches only the "
+             "entry's services. Tied to the real Run() port loop via a recording listener and an independent reference oracle.",
+        design_ref="DESIGN.md section 7, C19",
+        note="Trusted: Lean kernel; model HT.Srv (toAddr incl. net.SplitHostPort port, addPort); toml; net.Resolve*Addr on literals.",
+        technique="Lean 4 proof (fold invariants) + differential correspondence through Run()",
+    ),
     "C07": dict(
         text="Lean theorems over the rotating-file model: after any history of writes the rotated files followed by the "
              "active file contain exactly the bytes written in order (nothing lost, duplicated or altered); if whole lines "
